@@ -220,7 +220,7 @@ class FGen:
         if not self.dom["typed"]:
             return "object"
         names = [t for t, _ in self.dom["types"]]
-        return self.ch.choice(names)
+        return "object" if self.ch.flag(0.1) else self.ch.choice(names)
 
     def forall_pre(self, scope):
         simple = not self.ft["rich_nested_numeric"]
@@ -336,7 +336,9 @@ def gen_action(ch, dom, ft, name="act"):
         params.append(["?ag", "agent"])
         n = max(0, n - 1)
     for i in range(n):
-        params.append([PARAMS[i], ch.choice(tnames) if dom["typed"] else "object"])
+        # the root type is a legitimate parameter type of a typed domain too
+        t = "object" if (not dom["typed"] or ch.flag(0.12)) else ch.choice(tnames)
+        params.append([PARAMS[i], t])
     g = FGen(ch, dom, ft)
     scope = [(p, t) for p, t in params]
     return {"name": name, "params": params, "pre": g.pre(scope), "eff": g.eff(scope),
